@@ -110,7 +110,10 @@ CLAIMED["C06"] = dict(
         "no write outside the root buffer) and emits bitmaps; the harness renders bitmaps realised as unions of pixel-aligned rectangles, "
         "random CSG, NaN-interval shapes and bundled models with the real renderer (sizes, tile lists incl. non-powers of two, affine "
         "and projective views, VM / JIT, pools) and records the brute-force value at every pixel; Trace_C06 requires inside <=> value < 0 "
-        "(rounding band excepted) and, pixel-perfect, the value itself.",
+        "(rounding band excepted) and, pixel-perfect, the value itself.  Step by step: the tile decisions of real renders (pix_root / pix_tile "
+        "hook events, one case per root tile) are replayed through the step-wise formulation of Render2D.tla (Trace_Tiles2: agenda order, "
+        "fill / recurse / pixels, every buffer entry written exactly once, clipped image equal; TLC proves the step-wise and the recursive "
+        "formulation equal for every inside set).",
    note="reference values: interpreter on the unsimplified shape (tied to direct graph evaluation by C01); band 2e-5 around zero",
    technique="TLA+ design model (TLC exhaustive) + replay of generated bitmaps / shapes into the real renderer + TLA+ trace validation",
    design_ref="DESIGN.md section 3 C06")
@@ -121,7 +124,10 @@ CLAIMED["C07"] = dict(
         "voxel set of a small grid, which the harness realises and renders (expected heightmap recomputed by Trace_C07 from the voxel set); "
         "the harness also renders stacked objects, voxel-aligned boxes "
         "and CSG on grids with unequal sides and depths that are not multiples of the root tile and records the brute-force heightmap "
-        "and reference normals; Trace_C07 compares every column inside the claim.",
+        "and reference normals; Trace_C07 compares every column inside the claim.  Step by step: the tile decisions of real renders (vox_root / "
+        "vox_tile / vox_hit hook events, one case per root tile column) are replayed through the step-wise formulation of Render3D.tla "
+        "(Trace_Tiles3: agenda order, occlusion test, full / empty / recurse / voxels, the hits of every leaf tile, merged image equal, "
+        "the code's depth assertion on the model state; TLC proves the step-wise and the recursive formulation equal for every voxel set).",
    note="reference normals come from the same backend's gradient evaluator on the unsimplified shape (C05 judges gradients)",
    technique="TLA+ design model (TLC exhaustive) + TLC-generated voxel sets replayed into the real renderer + TLA+ trace validation",
    design_ref="DESIGN.md section 3 C07")
@@ -213,7 +219,7 @@ m = {
    "guard": "fidget_verif",
    "enable": "RUSTFLAGS=\"--cfg fidget_verif --check-cfg cfg(fidget_verif)\" (set in /verif/harness/.cargo/config.toml; never in /repo)",
    "baseline_off_cmd": "cd /repo && cargo nextest run --workspace --no-fail-fast --test-threads 8 --offline || cargo test --workspace --no-fail-fast --offline",
-   "source_commits": ["16ce250", "849e604", "9be9fb2", "70c2606", "c3eb3a3", "364e751", "3e8c7e0"],
+   "source_commits": ["16ce250", "849e604", "9be9fb2", "70c2606", "c3eb3a3", "364e751", "3e8c7e0", "f1682f1"],
    "add_only": True,
  },
  "engines": [{"name": "vcheck", "path": "bin/vcheck", "serves_properties": sorted(CLAIMED),
